@@ -139,6 +139,13 @@ CHECKS = {
         "leaves, layout rows, SetTree round trip) and validated by TLC against the layout operators.",
    note="no TLC-generated behaviours: the input space (n, index) is enumerated directly",
    technique="TLA+ layout/sibling-position oracle (MerkleTree.tla) model-checked by TLC + TLC trace validation of all (n, index)"),
+ "C18": dict(level="model_checking", ref="DESIGN.md §5 C18, §6",
+   text="Currency.tla states the required outcome of every exported helper with exact base-10^4 limb arithmetic (TLC integers are "
+        "32-bit) and transcribes the overflow idioms for W-bit words, which TLC checks exhaustively for W = 6 (thorough 8) and "
+        "refutes for the pre-fix idiom; the real helpers are called on a boundary lattice of 64-bit/signed/float operands plus "
+        "random operands and TLC recomputes every recorded result (exact or error, never a panic).",
+   note="IEEE products, exact integer parts and shortest decimals come from the Go runtime (trusted)",
+   technique="TLA+ exact-arithmetic oracle (Currency.tla) evaluated by TLC on recorded calls + exhaustive W-bit idiom check"),
 }
 
 NOT_APPLICABLE = []
